@@ -10,6 +10,7 @@ MAIN = "_H__command__H"
 SUB = "_H__command__H_subword"
 _cache = {}
 _asm = {}
+_renames = {}
 
 
 def flag_sets(repo, tier):
@@ -30,6 +31,13 @@ def skeleton(repo, flags):
     if key not in _cache:
         text, origin, asm = E.assemble(repo, ENTRY, flags)
         tree = B.parse(text)
+        # canonical variable names by role (a consistent rename in the templates is not a change of the program)
+        from vlib import shcanon
+        mapping = shcanon.discover(tree, MAIN, SUB, "H__MATCH_FN_NAME__H")
+        if mapping:
+            text = shcanon.rename(text, mapping)
+            tree = B.parse(text)
+        _renames[key] = mapping
         _cache[key] = (text, tree, B.functions(tree), origin)
         _asm[key] = asm
     return _cache[key]
